@@ -270,7 +270,7 @@ fn run_inline(c: &InlineCase) -> Outcome {
     let primary = cert.primary_key.public_key();
     let primary_body = primary.to_bytes().expect("ser");
     let kind = if c.text { SigKind::DocText } else { SigKind::DocBinary };
-    let name = ["prefixed", "one-pass", "cleartext"][c.carrier as usize];
+    let name = ["prefixed", "one-pass", "cleartext", "cleartext-new", "cleartext-new_many"][c.carrier as usize];
     let ver = if c.key.is_v6() { 6 } else { 4 };
     let what = format!("{name} {:?} hash {} text {} doc {} octets", c.key, c.hash, c.text, c.doc.len());
     let mut o = Outcome::ok("digest-equal");
@@ -316,19 +316,54 @@ fn run_inline(c: &InlineCase) -> Outcome {
         }
         _ => {
             let Ok(text) = String::from_utf8(c.doc.clone()) else { return Outcome::trivial("not utf-8") };
-            let csf = match CleartextSignedMessage::sign(crate::engine::rng(5), &text, &cert.primary_key, &pgp::types::Password::empty()) {
+            let pw = pgp::types::Password::empty();
+            let signed_form = crate::reference::canon::csf_signed_form(text.as_bytes());
+            // carrier 2: sign; 3: new (caller's configuration); 4: new_many (the caller signs the
+            // text the library hands over) - the signing key records the digest it is asked for
+            let rs = common::RecSigner::new(&cert.primary_key);
+            let cfg_for = || -> pgp::errors::Result<pgp::packet::SignatureConfig> {
+                use pgp::packet::{SignatureConfig, SignatureType, Subpacket, SubpacketData};
+                let h = common::msg::HASHES[c.hash as usize];
+                let mut cfg = if c.key.is_v6() {
+                    SignatureConfig::v6(crate::engine::rng(13), SignatureType::Text, cert.primary_key.algorithm(), h)?
+                } else {
+                    SignatureConfig::v4(SignatureType::Text, cert.primary_key.algorithm(), h)
+                };
+                cfg.hashed_subpackets = vec![
+                    Subpacket::regular(SubpacketData::SignatureCreationTime(pgp::types::Timestamp::from_secs(common::NOW)))?,
+                    Subpacket::regular(SubpacketData::IssuerFingerprint(cert.primary_key.fingerprint()))?,
+                ];
+                Ok(cfg)
+            };
+            let made = match c.carrier {
+                2 => CleartextSignedMessage::sign(crate::engine::rng(5), &text, &rs, &pw),
+                3 => cfg_for().and_then(|cfg| CleartextSignedMessage::new(&text, cfg, &rs, &pw)),
+                _ => CleartextSignedMessage::new_many(&text, |to_sign| Ok(vec![cfg_for()?.sign(&rs, &pw, to_sign.as_bytes())?])),
+            };
+            let csf = match made {
                 Ok(m) => m,
+                // a hash the key's algorithm refuses to sign with
+                Err(_) if c.carrier != 2 => return Outcome::trivial("signer-refuses"),
                 Err(e) => return Outcome::bad("C11:sign-error", format!("{what}: {e}")),
             };
             let Some(sig) = csf.signatures().first().cloned() else { return Outcome::bad("C11:reference-error", format!("{what}: no signature")) };
+            let sig_body = sig.to_bytes().expect("ser");
+            if let (Some(seen), Ok(want)) = (rs.last(), sigs::reference_digest(&sig_body, SigKind::DocText, &signed_form, &primary_body, &primary_body, &[])) {
+                if seen != want {
+                    o.push(
+                        format!("C11:created:{name}:v{ver}:digest-differs-from-rfc"),
+                        format!("{what}: signed digest {} != RFC digest over the 7.2 signed form {}", hex::encode(&seen), hex::encode(&want)),
+                    );
+                }
+            }
             if let Err(e) = csf.verify(&wrapped) {
                 o.push(format!("C11:verify:{name}:v{ver}:own-signature-rejected"), format!("{what}: {e}"));
             }
             // RFC 9580 7.2: trailing spaces and tabs removed from every line, line endings CR LF
-            (sig.to_bytes().expect("ser"), crate::reference::canon::csf_signed_form(text.as_bytes()))
+            (sig_body, signed_form)
         }
     };
-    let kind_for_ref = if c.carrier == 2 { SigKind::DocText } else { kind };
+    let kind_for_ref = if c.carrier >= 2 { SigKind::DocText } else { kind };
     match (rv.last(), sigs::reference_digest(&sig_body, kind_for_ref, &signed_over, &primary_body, &primary_body, &[])) {
         (Some(seen), Ok(want)) => {
             if seen != want {
@@ -678,6 +713,7 @@ pub fn check(ctx: &Ctx) {
         b"a".to_vec(),
         b"line one\nline two\r\nthree\r".to_vec(),
         b"trailing blank \ntab\t\n- dash\nform feed\x0c\nnbsp\xc2\xa0\nvt\x0b \nwide\xe3\x80\x80\n".to_vec(),
+        b"- item one\n- - item two \n-----BEGIN PGP SIGNATURE-----\nFrom here\n-\n".to_vec(),
         b"last line without end \x0c".to_vec(),
         b"crlf only\r\nlines \r\nend\r\n".to_vec(),
         [&vec![b't'; 511][..], b"\r\nx"].concat(),
@@ -685,8 +721,8 @@ pub fn check(ctx: &Ctx) {
     for (key, hashes) in &keys {
         for &hash in hashes {
             for text in [false, true] {
-                for carrier in 0..3u8 {
-                    if carrier == 2 && !text {
+                for carrier in 0..5u8 {
+                    if carrier >= 2 && !text {
                         continue;
                     }
                     for doc in &inline_docs {
@@ -702,7 +738,7 @@ pub fn check(ctx: &Ctx) {
     ctx.run_space(
         "inline_and_cleartext_verification",
         true,
-        "data signatures carried inline: prefixed form (signature packet + literal, assembled by the harness around a library-made signature), one-pass form (MessageBuilder) and the cleartext framework, x 8 signer keys (v4/v6) x hashes x binary/text x documents (empty, mixed line endings, lines ending in blank / TAB / FF / VT / NBSP / U+3000, text at the 512 window): Message::verify / CleartextSignedMessage::verify with a recording key - the digest handed to the key = RFC 9580 5.2.4 digest (salt, canonical text or the 7.2 signed form, fields, trailer) computed from the wire bytes",
+        "data signatures carried inline: prefixed form (signature packet + literal, assembled by the harness around a library-made signature), one-pass form (MessageBuilder) and the cleartext framework (sign / new / new_many, the signing side recorded too), x 8 signer keys (v4/v6) x hashes x binary/text x documents (empty, mixed line endings, dash and '- ' lines, lines ending in blank / TAB / FF / VT / NBSP / U+3000, text at the 512 window): Message::verify / CleartextSignedMessage::verify with a recording key - the digest handed to the key = RFC 9580 5.2.4 digest (salt, canonical text or the 7.2 signed form, fields, trailer) computed from the wire bytes",
         ic.into_par_iter(),
         run_inline,
     );
